@@ -4,11 +4,11 @@ from __future__ import annotations
 import ast
 from typing import Dict, List, Optional, Set, Tuple
 
-from ..cfg import CFG, path_conditions
+from ..cfg import CFG, path_conditions, symbolic_block_paths, symbolic_returns
 from ..exprnorm import Poly, Rat, conj_test, norm_test, normalize
 from ..report import Run
 from ..src import AnalysisError, ClassInfo, FuncInfo, Program, call_name, stmt_key, walk_no_nested
-from . import c01, c04, c06
+from . import c01, c04, c06, common
 from .common import run_as as _as
 
 EXPLANATION = (
@@ -101,112 +101,229 @@ def _static_lengths(prog: Program, run: Run) -> None:
             run.violation(R, f"{cls}.get_static_bit_length", "claims-static",
                           f"{cls} has a run-time dependent length but reports {rets}", m.loc)
     # ---- parameters / DOPs delegating
-    deleg = [("CodedConstParameter", "self.diag_coded_type.get_static_bit_length()"),
-             ("NrcConstParameter", "self.diag_coded_type.get_static_bit_length()"),
-             ("DataObjectProperty", "self.diag_coded_type.get_static_bit_length()")]
+    def returned(m: FuncInfo) -> Set[str]:
+        """the expressions a method can return (locals substituted), `None` excluded"""
+        out = set()
+        for _c, e, _r in symbolic_returns(m.node):
+            if e is not None and not (isinstance(e, ast.Constant) and e.value is None):
+                out.add(ast.unparse(e))
+        return out
+    deleg = [("CodedConstParameter", {"self.diag_coded_type.get_static_bit_length()"}),
+             ("NrcConstParameter", {"self.diag_coded_type.get_static_bit_length()"}),
+             ("DataObjectProperty", {"self.diag_coded_type.get_static_bit_length()"})]
     for cls, want in deleg:
         m = prog.cls(cls).methods.get("get_static_bit_length")
-        rets = [ast.unparse(r.value) for r in walk_no_nested(m.node) if isinstance(
-            r, ast.Return)] if m else []
-        if rets == [want]:
+        rets = returned(m) if m else set()
+        if rets == want:
             run.ok(R, f"{cls}.get_static_bit_length", "delegates to the diag-coded type that does "
                    "the coding", m.loc)
         else:
             run.violation(R, f"{cls}.get_static_bit_length", "delegation",
-                          f"returns {rets}, expected `{want}`", prog.cls(cls).loc)
+                          f"returns {sorted(rets)}, expected `{sorted(want)[0]}`",
+                          prog.cls(cls).loc)
     pw = prog.cls("ParameterWithDOP").methods.get("get_static_bit_length")
-    s = ast.unparse(pw.node) if pw else ""
-    if "self.dop.get_static_bit_length()" in s or "self._dop.get_static_bit_length()" in s or \
-            "dop.get_static_bit_length()" in s:
+    rets = returned(pw) if pw else set()
+    if rets and rets <= {"self.dop.get_static_bit_length()", "self._dop.get_static_bit_length()"}:
         run.ok(R, "ParameterWithDOP.get_static_bit_length", "delegates to its DOP", pw.loc)
     else:
         run.violation(R, "ParameterWithDOP.get_static_bit_length", "delegation",
-                      "does not report the static length of its DOP", prog.cls(
-                          "ParameterWithDOP").loc)
+                      f"does not report the static length of its DOP (returns {sorted(rets)})",
+                      prog.cls("ParameterWithDOP").loc)
     # ---- parameters coding themselves
     for cls in ("ReservedParameter", "MatchingRequestParameter"):
         ci = prog.cls(cls)
         m = ci.methods["get_static_bit_length"]
-        rets = [r.value for r in walk_no_nested(m.node) if isinstance(r, ast.Return)]
+        rets_ = [r.value for r in walk_no_nested(m.node) if isinstance(r, ast.Return)]
         d = ci.methods["_decode_positioned_from_pdu"]
         c = [x for x in walk_no_nested(d.node) if isinstance(x, ast.Call) and call_name(x) ==
              "extract_atomic_value"]
         bl = _kw(c[0], "bit_length") if c else None
-        if len(rets) == 1 and bl is not None and normalize(rets[0]).same(normalize(bl)):
-            run.ok(R, f"{cls}.get_static_bit_length", f"`{ast.unparse(rets[0])}` = bits consumed "
+        if len(rets_) == 1 and bl is not None and normalize(rets_[0]).same(normalize(bl)):
+            run.ok(R, f"{cls}.get_static_bit_length", f"`{ast.unparse(rets_[0])}` = bits consumed "
                    "by the decoder", m.loc)
         else:
             run.violation(R, f"{cls}.get_static_bit_length", "differs-from-decoder",
-                          f"static length `{ast.unparse(rets[0]) if rets else None}` but the "
+                          f"static length `{ast.unparse(rets_[0]) if rets_ else None}` but the "
                           f"decoder consumes `{ast.unparse(bl) if bl is not None else None}` bits",
                           m.loc)
+    # the encoder emplaces triggering_request[p : p + byte_length] (locals followed)
     mr = prog.cls("MatchingRequestParameter").methods["_encode_positioned_into_pdu"]
-    s = ast.unparse(mr.node)
-    if "triggering_request[rq_pos:rq_pos + rq_len]" in s and "rq_len = self.byte_length" in s:
+    emp = [x for x in walk_no_nested(mr.node) if isinstance(x, ast.Call) and call_name(x) ==
+           "emplace_bytes" and x.args]
+    good = False
+    if emp:
+        arg = common.resolve_locals(mr.node, emp[0].args[0])
+        while isinstance(arg, ast.Call) and call_name(arg) in ("bytes", "bytearray") and arg.args:
+            arg = arg.args[0]
+        if isinstance(arg, ast.Subscript) and isinstance(arg.slice, ast.Slice) and \
+                arg.slice.lower is not None and arg.slice.upper is not None and \
+                "triggering_request" in ast.unparse(arg.value):
+            ln = normalize(ast.BinOp(left=arg.slice.upper, op=ast.Sub(), right=arg.slice.lower))
+            good = ln.same(normalize(ast.parse("self.byte_length", mode="eval").body)) and \
+                normalize(arg.slice.lower).same(normalize(ast.parse(
+                    "self.request_byte_position", mode="eval").body))
+    if good:
         run.ok(R, "MatchingRequestParameter._encode_positioned_into_pdu",
                "emplaces exactly byte_length bytes of the request", mr.loc)
     else:
         run.violation(R, "MatchingRequestParameter._encode_positioned_into_pdu", "length",
-                      "does not emplace exactly byte_length bytes of the request", mr.loc)
+                      "does not emplace exactly byte_length bytes of the request, taken at "
+                      "request_byte_position", mr.loc)
     # ---- structures
     bs = prog.cls("BasicStructure").methods["get_static_bit_length"]
-    s = ast.unparse(bs.node)
-    if "return 8 * self.byte_size" in s and "composite_codec_get_static_bit_length(self)" in s:
+    sized = norm_test(ast.parse("self.byte_size is not None", mode="eval").body)
+    ok_bs = True
+    seen_bs = set()
+    for conds, e, r in symbolic_returns(bs.node):
+        key = conj_test(conds)
+        if key == sized:
+            seen_bs.add("sized")
+            ok_bs &= e is not None and normalize(e).same(normalize(ast.parse(
+                "8 * self.byte_size", mode="eval").body))
+        elif key == norm_test(ast.parse("self.byte_size is None", mode="eval").body):
+            seen_bs.add("unsized")
+            ok_bs &= e is not None and ast.unparse(e) == \
+                "composite_codec_get_static_bit_length(self)"
+        else:
+            ok_bs = False
+    if ok_bs and seen_bs == {"sized", "unsized"}:
         run.ok(R, "BasicStructure.get_static_bit_length", "8 * BYTE-SIZE if given, else the "
                "composite length", bs.loc)
     else:
         run.violation(R, "BasicStructure.get_static_bit_length", "formula",
                       "not 8 * byte_size / composite length", bs.loc)
-    f = prog.func("odxtools.codec:composite_codec_get_static_bit_length")
-    s = ast.unparse(f.node)
-    cfg = CFG(f.node)
-    checks = [("if param_bit_length is None:\n            return None" in s or
-               "param_bit_length is None" in s, "none-propagates",
-               "a parameter of unknown length makes the whole length unknown"),
-              ("cursor = param.byte_position" in s, "explicit-position",
-               "an explicitly positioned parameter moves the cursor to its BYTE-POSITION"),
-              ("byte_length = max(byte_length, cursor)" in s, "max-extent",
-               "the length is the maximum extent reached"),
-              ("return byte_length * 8" in s or "return 8 * byte_length" in s, "bits",
-               "the result is in bits")]
-    for ok, key, what in checks:
-        if ok:
-            run.ok(R, f.qual, what, f.loc)
-        else:
-            run.violation(R, f.qual, key, f"expected: {what}", f.loc)
-    adv = [x for x in walk_no_nested(f.node) if isinstance(x, ast.AugAssign) and ast.unparse(
-        x.target) == "cursor"]
-
-    def env(node: ast.AST):
-        s_ = ast.unparse(node)
-        if s_ == "param_bit_length":
-            return Rat(Poly.atom("N"))
-        if s_ in ("param.bit_position or 0", "(param.bit_position or 0)"):
-            return Rat(Poly.atom("B"))
-        return None
-    want = normalize(ast.parse("(N + B + 7) // 8", mode="eval").body)
-    if adv and normalize(adv[0].value, env).same(want):
-        run.ok(R, f.qual, "each parameter advances the cursor by ((bit_position or 0) + n + 7)//8 "
-               "bytes, the decoder's consumption formula", f"{f.module.rel}:{adv[0].lineno}")
-    else:
-        run.violation(R, f.qual, "advance-formula",
-                      f"`{stmt_key(adv[0]) if adv else '?'}` is not ((bit_position or 0) + "
-                      "param_bit_length + 7) // 8: the reported static length differs from the "
-                      "encoded length for parameters at a non-zero bit position",
-                      f"{f.module.rel}:{adv[0].lineno if adv else f.node.lineno}",
-                      stmt_key(adv[0]) if adv else "")
-    if "for param in codec.parameters" in s:
-        run.ok(R, f.qual, "walks codec.parameters", f.loc)
-    else:
-        run.violation(R, f.qual, "walk", "does not walk codec.parameters", f.loc)
+    _composite_length(prog, run, R)
     for cls in ("Request", "Response"):
         m = prog.cls(cls).methods.get("get_static_bit_length")
-        if m is not None and "composite_codec_get_static_bit_length(self)" in ast.unparse(m.node):
+        if m is not None and returned(m) == {"composite_codec_get_static_bit_length(self)"}:
             run.ok(R, f"{cls}.get_static_bit_length", "composite length of its own parameters",
                    m.loc)
         else:
             run.violation(R, f"{cls}.get_static_bit_length", "delegation",
                           "is not the composite length of its parameters", prog.cls(cls).loc)
+
+
+def _composite_length(prog: Program, run: Run, R: str) -> None:
+    """composite_codec_get_static_bit_length as a loop summary: one iteration, symbolically, maps
+    (cursor, byte_length) to (start + ((bit_position or 0) + n + 7) // 8, max(byte_length, that))
+    with start = BYTE-POSITION if given, else the cursor; an unknown n returns None; the result
+    is 8 * byte_length."""
+    f = prog.func("odxtools.codec:composite_codec_get_static_bit_length")
+    loops = [x for x in f.node.body if isinstance(x, ast.For)]
+    if len(loops) != 1 or not isinstance(loops[0].target, ast.Name):
+        raise AnalysisError(f"{f.qual}: expected one loop over the parameters")
+    lp = loops[0]
+    pv = lp.target.id
+    it = lp.iter
+    while isinstance(it, ast.Call) and call_name(it) in ("list", "tuple", "iter") and it.args:
+        it = it.args[0]
+    if ast.unparse(it) == f"{f.params()[0]}.parameters":
+        run.ok(R, f.qual, "walks codec.parameters", f.loc)
+    else:
+        run.violation(R, f.qual, "walk", "does not walk codec.parameters", f.loc)
+    # the accumulators: initialised to 0 before the loop, `8 * <acc>` returned after it
+    after = [x for x in f.node.body if isinstance(x, ast.Return)]
+    if len(after) != 1 or after[0].value is None:
+        raise AnalysisError(f"{f.qual}: expected one return after the loop")
+
+    def env(node: ast.AST):
+        s_ = ast.unparse(node)
+        if s_ == f"{pv}.get_static_bit_length()":
+            return Rat(Poly.atom("N"))
+        if s_ in (f"{pv}.bit_position or 0", f"({pv}.bit_position or 0)"):
+            return Rat(Poly.atom("B"))
+        return None
+    paths = symbolic_block_paths(lp.body)
+    n_none = norm_test(ast.parse(f"{pv}.get_static_bit_length() is None", mode="eval").body)
+    positioned = norm_test(ast.parse(f"{pv}.byte_position is not None", mode="eval").body)
+    accs = [v for v in ("byte_length",) if any(v in p_.env for p_ in paths)]
+    # which free name is the cursor / the extent? the extent is the one returned
+    ret_names = [n.id for n in ast.walk(after[0].value) if isinstance(n, ast.Name)]
+    if len(ret_names) != 1:
+        raise AnalysisError(f"{f.qual}: the result is not computed from one accumulator")
+    ext = ret_names[0]
+    if normalize(after[0].value).same(normalize(ast.parse(f"8 * {ext}", mode="eval").body)):
+        run.ok(R, f.qual, "the result is in bits", f.loc)
+    else:
+        run.violation(R, f.qual, "bits", "expected: the result is in bits", f.loc)
+    curs = sorted({k for p_ in paths for k in p_.env if k != ext and "." not in k and
+                   isinstance(p_.env[k], ast.AST) and any(
+                       isinstance(n, ast.Name) and n.id == k for n in ast.walk(p_.env[k]))})
+    problems: List[Tuple[str, str]] = []
+    seen = set()
+    for p_ in paths:
+        conds = [(t, pol) for t, pol in p_.conds]
+        keys = {norm_test(t, negate=not pol) for t, pol in conds}
+        if n_none in keys:
+            seen.add("unknown")
+            if p_.ret is None or not (p_.retval is None or (isinstance(
+                    p_.retval, ast.Constant) and p_.retval.value is None)):
+                problems.append(("none-propagates", "a parameter of unknown length does not "
+                                 "make the whole length unknown (return None)"))
+            continue
+        if p_.ret is not None:
+            problems.append(("none-propagates", "the walk is left early although the length of "
+                             "the parameter is known"))
+            continue
+        cur_names = [k for k in p_.env if k != ext and k in curs]
+        if ext not in p_.env or len(cur_names) != 1:
+            problems.append(("max-extent", "the extent reached is not tracked for every "
+                             "parameter"))
+            continue
+        cur = cur_names[0]
+        start = f"{pv}.byte_position" if positioned in keys else cur
+        seen.add("positioned" if positioned in keys else "sequential")
+        want_cur = normalize(ast.parse(f"{start} + (N + B + 7) // 8", mode="eval").body)
+        sub = {"N": f"{pv}.get_static_bit_length()"}
+        got_cur = normalize(p_.env[cur], env)
+        want_cur = normalize(ast.parse(
+            f"{start} + (({pv}.bit_position or 0) + {pv}.get_static_bit_length() + 7) // 8",
+            mode="eval").body, env)
+        if not got_cur.same(want_cur):
+            if positioned in keys and got_cur.same(normalize(ast.parse(
+                    f"{cur} + (({pv}.bit_position or 0) + {pv}.get_static_bit_length() + 7) // 8",
+                    mode="eval").body, env)):
+                problems.append(("explicit-position", "an explicitly positioned parameter does "
+                                 "not move the cursor to its BYTE-POSITION"))
+            else:
+                problems.append(("advance-formula",
+                                 f"one parameter moves the cursor to `{ast.unparse(p_.env[cur])}`"
+                                 f", not to {start} + ((bit_position or 0) + n + 7) // 8: the "
+                                 "reported static length differs from the encoded length for "
+                                 "parameters at a non-zero bit position"))
+        e = p_.env[ext]
+        if isinstance(e, ast.Call) and call_name(e) == "max" and len(e.args) == 2 and \
+                not e.keywords:
+            ks = {normalize(a_, env).key() for a_ in e.args}
+            if ks != {normalize(ast.Name(id=ext, ctx=ast.Load())).key(), got_cur.key()}:
+                problems.append(("max-extent", f"the extent becomes `{ast.unparse(e)}`, not the "
+                                 "maximum of the extent so far and the new cursor"))
+        else:
+            problems.append(("max-extent", f"the extent becomes `{ast.unparse(e)}`, not the "
+                             "maximum of the extent so far and the new cursor"))
+    for need, key, what in (("unknown", "none-propagates", "a parameter of unknown length makes "
+                             "the whole length unknown"),
+                            ("positioned", "explicit-position", "an explicitly positioned "
+                             "parameter moves the cursor to its BYTE-POSITION"),
+                            ("sequential", "advance-formula", "a parameter without BYTE-POSITION "
+                             "follows the previous one")):
+        if need not in seen:
+            problems.append((key, f"expected: {what}"))
+    reported = set()
+    for key, what in problems:
+        if key in reported:
+            continue
+        reported.add(key)
+        run.violation(R, f.qual, key, what, f"{f.module.rel}:{lp.lineno}")
+    for key, what in (("none-propagates", "a parameter of unknown length makes the whole length "
+                       "unknown"),
+                      ("explicit-position", "an explicitly positioned parameter moves the cursor "
+                       "to its BYTE-POSITION"),
+                      ("advance-formula", "each parameter advances the cursor by ((bit_position "
+                       "or 0) + n + 7)//8 bytes, the decoder's consumption formula"),
+                      ("max-extent", "the length is the maximum extent reached")):
+        if key not in reported:
+            run.ok(R, f.qual, what, f"{f.module.rel}:{lp.lineno}")
 
 
 def _size_limits(prog: Program, run: Run) -> None:
